@@ -251,6 +251,13 @@ def _from_mono(k: Fraction, f: dict) -> T:
                 fac = neg(fac)
                 if e % 2:
                     k = -k
+            # ... and primitive: the positive rational content goes into the coefficient ((1/2 - x/2)*a and (1 - x)*a/2 coincide)
+            if fac.op == "add":
+                cs = [q for q in (fac.val[0],) + tuple(fac.val[1]) if q != 0]
+                g = Fraction(math.gcd(*[q.numerator for q in cs]), math.lcm(*[q.denominator for q in cs]))
+                if g != 1:
+                    fac = scale(fac, 1 / g)
+                    k *= g ** e
         if fac.op == "named" and fac.val == "SQRT2":
             q, r = divmod(e, 2)
             k *= Fraction(2) ** q
@@ -480,6 +487,18 @@ def ite(c, a, b) -> T:
         return a
     if a.sort == "B":
         return or_(and_(c, a), and_(not_(c), b))
+    # ite(c, P*a', P*b') = P * ite(c, a', b') for the common monomial part P of two monomial branches
+    pa = not (a.op == "add" and not (a.val[0] == 0 and len(a.args) == 1)) and a.op != "const"
+    pb = not (b.op == "add" and not (b.val[0] == 0 and len(b.args) == 1)) and b.op != "const"
+    if pa and pb:
+        ka, fa = _mono(a)
+        kb, fb = _mono(b)
+        common = {g: min(e, fb[g]) for g, e in fa.items() if g in fb and e > 0 and fb[g] > 0}
+        k = ka if ka == kb else Fraction(1)
+        if common or k != 1:
+            ra = _from_mono(ka / k, {g: e - common.get(g, 0) for g, e in fa.items()})
+            rb = _from_mono(kb / k, {g: e - common.get(g, 0) for g, e in fb.items()})
+            return mul(_from_mono(k, common), _mk("ite", (c, ra, rb), sort="R") if ra is not rb else ra)
     return _mk("ite", (c, a, b), sort="R")
 
 
@@ -649,6 +668,20 @@ def sqrt(u) -> T:
         rn, rd = math.isqrt(n), math.isqrt(dd)
         if rn * rn == n and rd * rd == dd:
             return const(Fraction(rn, rd))
+        h = u.val / 2  # sqrt(2 q^2) = SQRT2 * q
+        rn, rd = math.isqrt(h.numerator), math.isqrt(h.denominator)
+        if rn * rn == h.numerator and rd * rd == h.denominator:
+            return scale(named("SQRT2"), Fraction(rn, rd))
+    if u.op == "add" and not (u.val[0] == 0 and len(u.args) == 1):
+        # sqrt(g * s) = sqrt(g) * sqrt(s) for the positive rational content g of a sum (gcd of numerators over lcm of denominators)
+        coefs = [k for k in (u.val[0],) + tuple(u.val[1]) if k != 0]
+        g = Fraction(math.gcd(*[k.numerator for k in coefs]), math.lcm(*[k.denominator for k in coefs]))
+        if g != 1:
+            return mul(sqrt(const(g)), sqrt(scale(u, 1 / g)))
+    if u.op == "add" and u.val[0] == 0 and len(u.args) == 1 and abs(u.val[1][0]) != 1:
+        # sqrt(k*m) = sqrt(|k|) * sqrt(sign(k)*m) for a rational k (both sides are defined exactly when k*m >= 0)
+        k = u.val[1][0]
+        return mul(sqrt(const(abs(k))), sqrt(u.args[0] if k > 0 else neg(u.args[0])))
     return _mk("app", (u,), "sqrt")
 
 
